@@ -113,6 +113,7 @@ struct Probe<'i> {
     oob: Option<&'static str>,
     loop_detected: Option<&'static str>,
     ok_accessors: u32,
+    reencode_diff: Option<(&'static str, String)>,
 }
 
 impl<'i> Probe<'i> {
@@ -189,6 +190,31 @@ impl<'i> Probe<'i> {
         if let Ok(seq) = acc!("container", e.container()) {
             self.ok_accessors += 1;
             self.sequence(&seq, depth);
+        }
+        // re-encoding a decoded element reproduces its bytes (whatever the width of its length field)
+        if let Ok(tag) = e.tag() {
+            let raw = e.raw_data();
+            let mut out = vec![0u8; raw.len() + 16];
+            let mut wb = WriteBuf::new(&mut out);
+            ACCESSOR.with(|a| a.set("to_tlv"));
+            if e.to_tlv(&tag, &mut wb).is_ok() {
+                let o = wb.as_slice();
+                if o.len() > raw.len() || o != &raw[..o.len()] {
+                    self.reencode_diff = Some(("TLVElement::to_tlv", hex(&o[..o.len().min(16)])));
+                }
+            }
+            if let Ok(v) = e.value() {
+                if !v.value_type().is_container() {
+                    let mut wb = WriteBuf::new(&mut out);
+                    ACCESSOR.with(|a| a.set("TLVWrite::tlv"));
+                    if wb.tlv(&tag, &v).is_ok() {
+                        let o = wb.as_slice();
+                        if o.len() > raw.len() || o != &raw[..o.len()] {
+                            self.reencode_diff = Some(("TLVWrite::tlv(tag, value)", hex(&o[..o.len().min(16)])));
+                        }
+                    }
+                }
+            }
         }
         if depth == 0 {
             use std::fmt::Write;
@@ -329,11 +355,11 @@ fn probe_input(input: &[u8], wire: bool, acc: &mut Acc) {
     watch_begin(input);
     let mut wire_out = Vec::new();
     let res = common::catch(|| {
-        let mut p = Probe { input, steps: 0, oob: None, loop_detected: None, ok_accessors: 0 };
+        let mut p = Probe { input, steps: 0, oob: None, loop_detected: None, ok_accessors: 0, reencode_diff: None };
         let e = TLVElement::new(input);
         p.element(&e, 0);
         let wd = if wire { probe_wire(input, &mut wire_out) } else { 0 };
-        (p.oob, p.loop_detected, p.ok_accessors, wd)
+        (p.oob, p.loop_detected, p.ok_accessors, wd, p.reencode_diff)
     });
     watch_end();
     let replay = json!({"kind": "bytes", "hex": hex(input)});
@@ -346,7 +372,14 @@ fn probe_input(input: &[u8], wire: bool, acc: &mut Acc) {
                 replay,
             );
         }
-        Ok((oob, lp, okn, wd)) => {
+        Ok((oob, lp, okn, wd, rd)) => {
+            if let Some((how, got)) = rd {
+                acc.report.violation(
+                    format!("C16:reencode-differs:{}", how),
+                    format!("input {}: an element decoded from it re-encodes through {} to {}...", hex(input), how, got),
+                    replay.clone(),
+                );
+            }
             if okn > 2 {
                 acc.decoded_ok += 1;
             }
